@@ -136,6 +136,7 @@ class Evaluator:
         self.scans = {}
         self.vmaps = {}
         self.treemaps = {}
+        self.states = {}
         self._ids = itertools.count(1)
         self.inline = set(inline)
         self.max_inline_depth = max_inline_depth
@@ -921,6 +922,14 @@ class Evaluator:
         # --- vmapped call:  modular_vmap(f, ...)(args)
         if fn[0] == "call" and fn[1][0] == "name" and fn[1][1] in VMAP_NAMES:
             return self.sum_vmap(t, fr)
+        # --- state(f)(*args): (result of f, collected-state dictionary)
+        if fn[0] == "call" and fn[1] == ("name", "genjax.state.state") and fn[2] and fn[2][0][0] == "closure" \
+                and len(self._inlining) < self.max_inline_depth + 2:
+            r = self.apply_closure(fn[2][0], args, kwargs)
+            if r is not None:
+                stid = next(self._ids)
+                self.states[stid] = {"f": fn[2][0], "body": r, "term": t}
+                return ("tuple", (r, ("collected", stid)))
         if fn[0] == "partial":
             return self.call_term(fn[1], fn[2] + tuple(args), fn[3] + tuple(kwargs), fr, node)
         # --- forwarding method on self (whitelisted per rule)
@@ -1077,13 +1086,26 @@ class Evaluator:
             return a  # shared across lanes
         return ("lane", vid, a, ax)
 
+    def leaf_of(self, tid, tree):
+        """Leaf of `tree` seen by tree_map #tid.  A tree that is itself a tree_map result is, leaf by leaf, that
+        map's body (all trees of one tree_map share a structure), so its body is re-expressed over #tid's leaves."""
+        if tree[0] == "treemap":
+            inner = tree[1]
+
+            def f(x):
+                if x[0] == "leaf" and x[1] == inner:
+                    return self.leaf_of(tid, x[2])
+                return None
+            return subst(tree[2], f)
+        return ("leaf", tid, tree)
+
     def sum_treemap(self, t, fr):
         _, fn, args, kwargs = t
         if len(args) < 2:
             return None
         f = args[0]
         tid = next(self._ids)
-        leaves = tuple(("leaf", tid, a) for a in args[1:])
+        leaves = tuple(self.leaf_of(tid, a) for a in args[1:])
         rec = {"f": f, "trees": args[1:], "kwargs": kwargs, "term": t}
         self.treemaps[tid] = rec
         if f[0] == "closure" and len(self._inlining) < self.max_inline_depth + 2:
@@ -1180,6 +1202,8 @@ def ts(t, ev=None, depth=0):
         return f"{t[1]}comp({', '.join(f(x) for x in t[2])} for " + "; ".join(f(g[1]) for g in t[3]) + ")"
     if h == "partial":
         return f"partial({f(t[1])}, {', '.join(f(x) for x in t[2])})"
+    if h == "collected":
+        return f"state#{t[1]}"
     if h in ("undef", "top", "fstr", "loopbreak", "axis", "axis-of-rest", "kwaxis", "dictmerge"):
         return "<" + " ".join(str(x) if not isinstance(x, tuple) else f(x) for x in t) + ">"
     return "<" + h + ">"
